@@ -8,8 +8,42 @@ import collections
 import re
 import types
 
-from coop import Sched
+import queue as _queue
+
+from coop import Coop, Sched
 from wsim import OUTCOMES, FakePM, WorkerSim
+
+
+class CoopQueue:
+    """stands for DSession.queue: get() is a yield point of the controller's main thread, so that
+    the REAL pytest_runtestloop / loop_once run, one event per simulator step; an empty queue with
+    no active node left behaves like the 2 s timeout (queue.Empty)"""
+
+    def __init__(self, sim):
+        self.sim = sim
+        self.items = collections.deque()
+
+    def put(self, item):
+        self.items.append(item)
+
+    def get(self, timeout=None):
+        c = self.sim.sched.current
+        ds = self.sim.ds
+        if c is not None:
+            c.yield_(blocked_on=lambda: bool(self.items) or not ds._active_nodes)
+        if self.items:
+            return self.items.popleft()
+        raise _queue.Empty
+
+    def empty(self):
+        return not self.items
+
+    def qsize(self):
+        return len(self.items)
+
+    @property
+    def queue(self):
+        return self.items
 
 EXC_NAMES = {"KeyError", "ValueError", "AssertionError", "OSError", "NotImplementedError",
              "ZeroDivisionError", "IndexError", "TypeError", "RuntimeError"}
@@ -86,6 +120,9 @@ class Sim:
         import xdist.dsession as dsession
         from xdist.workermanage import WorkerController
         self.WorkerController = WorkerController
+        cfg = dict(cfg)
+        cfg["overrides"] = {int(k): v for k, v in (cfg.get("overrides") or {}).items()}     # JSON keys are strings
+        cfg["collreports"] = {int(k): v for k, v in (cfg.get("collreports") or {}).items()}
         self.cfg = cfg
         self.sched = Sched()
         self.outs = []
@@ -124,9 +161,9 @@ class Sim:
         self.config.notify_exception = lambda e: None
         ds = self.ds = dsession.DSession(self.config)
         ds.log = Log(self)
-        ds.sched = ds.pytest_xdist_make_scheduler(self.config, ds.log)
-        ds.shouldstop = False
+        ds.queue = CoopQueue(self)
         ds._session = types.SimpleNamespace(testscollected=0)
+        self.Interrupted = dsession.Interrupted
 
         def report_line(line):
             if line.startswith("\nworker ") and "restarting disabled" in line:
@@ -143,6 +180,13 @@ class Sim:
             sp = Spec(specs[i] if i < len(specs) else 0)
             self.allocate_id(sp)
             ds._active_nodes.add(self.setup_node(sp, ds.queue.put, initial=True))
+        # the controller's main thread runs the REAL pytest_runtestloop; prime it up to its first queue.get
+        self.ctl = Coop(self.sched, "controller", self._runtestloop)
+        self.ctl_ret = None
+        self.ctl.resume()
+
+    def _runtestloop(self):
+        self.ctl_ret = self.ds.pytest_runtestloop()
 
     # ---- node manager fakes
     def allocate_id(self, spec):
@@ -174,6 +218,8 @@ class Sim:
     def hookcall(self, name, kw):
         o = self.outs
         nid = lambda node: int(node.gateway.id[2:])
+        if name == "pytest_xdist_make_scheduler":
+            return self.ds.pytest_xdist_make_scheduler(config=kw["config"], log=kw["log"])
         if name == "pytest_report_from_serializable":
             ns = types.SimpleNamespace(**vars(kw["data"]["rep"]))
             if "item_index" in kw["data"]:
@@ -281,15 +327,16 @@ class Sim:
                 if ev[0] in ("logstart", "logfinish"):
                     self.cur_index = self.workers[self.cur_node].ids.index(ev[1]["nodeid"]) \
                         if self.workers[self.cur_node].ids.count(ev[1]["nodeid"]) == 1 else ev[1].get("_idx")
-            try:
-                ds.loop_once()
-                if ds.shouldstop:
-                    ds.triggershutdown()
-                if ds.session_finished:
-                    self.result = ["interrupted"] if ds.shouldstop else ["finished"]
-            except BaseException as e:  # noqa: BLE001
-                self.result = ["error", self.excname(e)]
-                self.exc = e
+            self.ctl.resume()
+            if self.ctl.finished:
+                e = self.ctl.exc
+                if e is None:
+                    self.result = ["finished"]
+                elif isinstance(e, self.Interrupted):
+                    self.result = ["interrupted"]
+                else:
+                    self.result = ["error", self.excname(e)]
+                    self.exc = e
         else:
             raise ValueError(label)
         outs = list(self.outs)
